@@ -431,7 +431,9 @@ func runPg(o opts) error {
 		{pfx: db.DATATYPE_STATICLOAD, unlock: db.DATATYPE_STATICLOAD, sid: "s", lang: "nor", hasLn: true},
 		{pfx: db.DATATYPE_MENU, unlock: db.DATATYPE_MENU, sid: "s"},
 		{pfx: db.DATATYPE_BIN, sid: "s", lang: "nor", hasLn: true},
-		{pfx: 0, sid: "s"}}
+		{pfx: 0, sid: "s"},
+		// application-defined data types: sessioned above STATICLOAD whatever their bits
+		{pfx: 64, sid: "s"}, {pfx: 192, sid: "t"}, {pfx: 9, unlock: 9, sid: "s", lang: "nor", hasLn: true}}
 	// keys chosen so that a translated key of one collides with the default key of another
 	advKeys := []string{"a", "b", "a_nor", "c", "ab"}
 	for c := 0; c < advBudget; c++ {
